@@ -9,6 +9,8 @@ TB = ("Trusted base: the executable reference model and format interpreters unde
 
 FILE_TECH = "session simulation at the stream seams: generated files and history-made charts through read_file/write_file on a simulated file system (real io/codecs layers over a stub device: tiny buffers, short counts, platform defaults, stale destination, EIO/ENOSPC/close errors placed inside the op, retry after failure), judged by an independent reference interpreter of the format; write/read generation chains"
 CLAIMED = {
+ "C09": (FILE_TECH + "; two seams composed",
+         "For each of the 16 source->target pairs a generated source file (osu, Quaver, StepMania, BMS, O2Jam; inside the domains of C01/C02/C04/C06/C07; key counts the target supports; on whole milliseconds and on the beat grid when the target has one) is installed, read, converted and written, with independent I/O plans on the read and the write seam (tiny buffers, short counts, platform defaults, stale target, injected errors). The oracle consults only the two reference interpretations - source bytes and target bytes: the target must be valid in its format and its objects, columns (plus the documented column shift) and tempo timeline must equal the source's within the coarser of the two formats' resolutions (1 ms osu/Quaver, 1/96 beat StepMania, 1/192 beat BMS).", "§5 C09"),
  "C07": (FILE_TECH,
          "Generated OJN byte strings (300-byte header; three difficulties; note packages on all seven columns with 1..192 slots; long notes spanning packages and measures; 0..6 tempo events at any measure position, also after the last note; auto-play channels that are not notes; empty difficulties) are installed and read through short binary reads, several files per session (the reader threads a long-note buffer through the levels). Every note, long-note end and tempo change must sit at the millisecond position of exact rational integration over the header tempo and all tempo events before it, in the right column, heads paired with tails, and the header fields must be decoded as laid out; injected read errors may only make the call raise.", "§5 C07"),
  "C04": (FILE_TECH,
